@@ -15,6 +15,7 @@
 #include <sys/epoll.h>
 #include <sys/timerfd.h>
 #include <sys/socket.h>
+#include <sys/syscall.h>
 #include <errno.h>
 #include <fcntl.h>
 #include <pthread.h>
@@ -116,6 +117,69 @@ lcb_verif_point(int id, const void *obj) {
 		usleep(200 + (useconds_t)(b >> 2) * 40);
 		break;
 	}
+}
+
+/* ---------------- mutex unlock as a scheduling point ----------------
+ * The pool sources use a mutex only inside broadcast records; for TP_BMSG_F_SYNC the record (and the mutex) live in
+ * the frame of tpt_msg_bsend_ex(). The last thing a pool thread does to such a record is the unlock that ends its
+ * decrement. The redirected unlock may pause *before* releasing (schedule plan, counted per thread so that a polling
+ * waiter cannot use the plan up) and then looks at the mutex: if it was destroyed or overwritten while this thread
+ * still owned it, the broadcast call has returned (and its frame was reused) before the callback bookkeeping ended. */
+static atomic_uint st_mutex_gone;
+static __thread uint32_t unlock_hits_tls, unlock_epoch_tls;
+static atomic_uint g_epoch;
+
+#if defined(__has_feature)
+#  if __has_feature(address_sanitizer)
+#    define TP_NO_ASAN __attribute__((no_sanitize("address")))
+#  endif
+#endif
+#ifndef TP_NO_ASAN
+#  ifdef __SANITIZE_ADDRESS__
+#    define TP_NO_ASAN __attribute__((no_sanitize_address))
+#  else
+#    define TP_NO_ASAN
+#  endif
+#endif
+static TP_NO_ASAN int
+mutex_still_mine(pthread_mutex_t *m) {
+	/* glibc: a destroyed mutex has __kind == -1; the owner of a locked normal mutex is the locker's tid */
+	volatile int kind = m->__data.__kind, owner = m->__data.__owner;
+	return (kind >= 0 && owner == (int)syscall(SYS_gettid));
+}
+
+int
+verif_pthread_mutex_unlock(pthread_mutex_t *m) {
+	uint8_t b;
+	uint32_t n, ep = atomic_load(&g_epoch);
+
+	if (unlock_epoch_tls != ep) { /* counts restart with every case */
+		unlock_epoch_tls = ep;
+		unlock_hits_tls = 0;
+	}
+	n = unlock_hits_tls ++;
+
+	if (0 != atomic_load(&g_armed) && 0 != g_plans.plan_len && n < 64) {
+		b = g_plans.plan[(20u * 7u + n + 3u * tp_thr_idx()) % g_plans.plan_len];
+		switch (b & 3) {
+		case 0:
+			break;
+		case 1:
+			sched_yield();
+			break;
+		case 2:
+			usleep(20 + (useconds_t)(b >> 2) * 8);
+			break;
+		case 3:
+			usleep(400 + (useconds_t)(b >> 2) * 180); /* up to ~12 ms: longer than one TP_BMSG_F_SYNC_USLEEP poll */
+			break;
+		}
+	}
+	if (0 == mutex_still_mine(m)) {
+		atomic_fetch_add(&st_mutex_gone, 1);
+		return (0); /* do not operate on memory that is no longer a mutex */
+	}
+	return (pthread_mutex_unlock(m));
 }
 
 /* ---------------- resource tables ---------------- */
@@ -443,6 +507,7 @@ tp_res_get(tp_res_stats *out) {
 	out->total_threads = st_total_threads;
 	out->double_free = st_double_free;
 	out->close_unknown = st_close_unknown;
+	out->mutex_gone = atomic_load(&st_mutex_gone);
 	pthread_mutex_unlock(&rt_lock);
 	for (i = 0; i < F_LAST; i ++) {
 		out->calls[i] = atomic_load(&g_calls[i]);
@@ -467,6 +532,8 @@ tp_harness_reset(const tp_plans *plans) {
 		atomic_store(&g_vp_hits[i], 0);
 	pthread_mutex_lock(&rt_lock);
 	st_total_allocs = st_total_fds = st_total_threads = st_double_free = st_close_unknown = 0;
+	atomic_store(&st_mutex_gone, 0);
+	atomic_fetch_add(&g_epoch, 1);
 	pthread_mutex_unlock(&rt_lock);
 	memset(&g_cap, 0, sizeof(g_cap));
 	if (NULL != plans)
